@@ -281,7 +281,19 @@ def run(ctx):
     extra = []
     for hs in (['0', '1', '2', '3', '12345', 'random', 'random'] if thorough else ['1', '2', 'random']):
         extra.append(('hashseed=' + hs, ctx.run_driver(DRIVER, dict(scenarios=[allseq]), mode='nrt', hashseed=hs)))
-    extra.append(('rt', ctx.run_driver(DRIVER, dict(scenarios=[allseq]), mode='rt', hashseed='7')))
+    # RT mode needs a free UDP port in 57120-57129; other checks running RT processes on the same machine can exhaust
+    # them: retry, and if the environment still has no port, go on without the RT configuration (noted in the evidence)
+    import time
+    for attempt in range(4):
+        try:
+            extra.append(('rt', ctx.run_driver(DRIVER, dict(scenarios=[allseq]), mode='rt', hashseed='7')))
+            break
+        except MachineryError as e:
+            if 'Address already in use' not in str(e) and 'port range' not in str(e):
+                raise
+            time.sleep(5 + 5 * attempt)
+    else:
+        ctx.cov['rt_mode'] = 'skipped: no free UDP port for sc3.init(rt) after 4 attempts'
     gcn = 3000 if thorough else 800
     gcprog = sp.Prog('gcp', [sp.Ctl('a', 1, 1)], [sp.Gen('SinOsc', 2, [sp.Pm(1), sp.C(0)]),
                                                    sp.Gen('Out', 2, [sp.C(0), sp.R(1)], 0)])
